@@ -392,6 +392,7 @@ def prop_C15(run):
     rules_mpt.pipeline(run)
     import rules_sym as _rs
     _rs.conditional_scope_rule(run)
+    _rs.simple_lookup_context(run)
     run.rules_run += ["SYM declare: level test, duplicate test and insertion use one scope expression", "SYM lookup: scope = enclosing[0..level], descent name by name, unknown is an error",
                       "SYM walkers: sibling AST walkers update the context on every Symbol node", "SYM use: lookups use the context of the point of use; unresolved is an error on the last pass",
                       "SYM parse: one level per dot", "PIPE: all symbols are declared before anything is resolved"]
@@ -412,6 +413,7 @@ def prop_C16(run):
     rules_mpt.pipeline(run)
     import rules_sym as _rs
     _rs.conditional_scope_rule(run)
+    _rs.simple_lookup_context(run)
     run.rules_run += ["COND resolve_ifs: decided #if replaced in place by exactly the selected arm", "COND leftover #if always fails with a message",
                       "COND command-line definitions override first, freeze, and unused ones fail", "COND who-reads the arms of an #if",
                       "COND pre-pass is an unbounded fixed point", "INC nested include", "PIPE leftover check before definitions/matching; unused-define check before output"]
